@@ -56,12 +56,35 @@ Fixpoint canon_docs (m : cmap) (l : list doc) : cmap * list doc :=
   | d :: l' => let '(m, d) := canon_doc m d in let '(m, r) := canon_docs m l' in (m, d :: r)
   end.
 
+(* callbacks handed to subscribe / clear_sub: renamed by first appearance in the device-call ledger, as the driver
+   does (a monitor started while the monitors are suspended is not subscribed at once) *)
+Definition canon_cb (m : cmap) (c : nat) : cmap * nat :=
+  match dget m c with
+  | Some i => (m, i)
+  | None => (m ++ [(c, length m)], length m)
+  end.
+Definition canon_call (m : cmap) (c : devcall) : cmap * devcall :=
+  match c with
+  | CSubscribe o cb => let '(m, cb) := canon_cb m cb in (m, CSubscribe o cb)
+  | CClearSub o cb => let '(m, cb) := canon_cb m cb in (m, CClearSub o cb)
+  | _ => (m, c)
+  end.
+Fixpoint canon_calls (m : cmap) (l : list devcall) : cmap * list devcall :=
+  match l with
+  | [] => (m, [])
+  | c :: l' => let '(m, c) := canon_call m c in let '(m, r) := canon_calls m l' in (m, c :: r)
+  end.
+
 Definition obs := (list doc * list devcall * result)%type.
-Fixpoint canon_obs (m : cmap) (l : list obs) : list obs :=
+Fixpoint canon_obs2 (m mc : cmap) (l : list obs) : list obs :=
   match l with
   | [] => []
-  | (docs, calls, r) :: l' => let '(m, docs) := canon_docs m docs in (docs, calls, r) :: canon_obs m l'
+  | (docs, calls, r) :: l' =>
+      let '(m, docs) := canon_docs m docs in
+      let '(mc, calls) := canon_calls mc calls in
+      (docs, calls, r) :: canon_obs2 m mc l'
   end.
+Definition canon_obs (m : cmap) (l : list obs) : list obs := canon_obs2 m [] l.
 
 (* ---- boolean equalities *)
 Definition dict_beq {V} (eqv : V -> V -> bool) : dict V -> dict V -> bool := list_beq (prod_beq Nat.eqb eqv).
